@@ -863,7 +863,7 @@ func TestC42(t *testing.T) {
 
 	// --- CFind ---
 	corpus := p.corpusFind()
-	nFind := e.Pick(300, 6000)
+	nFind := e.Pick(300, 4000)
 	for i := 0; i < nFind; i++ {
 		var fc findCase
 		if i < len(corpus) {
@@ -895,7 +895,7 @@ func TestC42(t *testing.T) {
 	}
 
 	// --- CIter ---
-	nIter := e.Pick(380, 9000)
+	nIter := e.Pick(380, 6000)
 	for i := 0; i < nIter; i++ {
 		hostile := r.Intn(3) == 0
 		fa := genFilter(r, addrTerms, nCleanAddr, hostile)
